@@ -59,7 +59,7 @@ fn toks(j: &J) -> Vec<String> {
 pub fn run_case(scope: &Scope, case: &J, rng: &mut Rng) -> J {
   let mut rec = json!({"tree": case["tree"]});
   let mut texts = vec![];
-  for (key, out) in [("full", "pfull"), ("min", "pmin"), ("nopar", "pnopar")] {
+  for (key, out) in [("full", "pfull"), ("min", "pmin"), ("wrapmin", "pwrapmin"), ("nopar", "pnopar")] {
     if case.get(key).is_none() {
       continue;
     }
@@ -186,9 +186,15 @@ pub fn check(mut ctx: Ctx, replay: Option<J>) -> ! {
         let tk = toks(&cases[*i][key]);
         tk.windows(2).find(|w| w[0].starts_with('~') && !w[1].starts_with('~') && ["or", "and", "in", "between", "+", "-", "*", "/", "**", ".", "[", "("].contains(&w[1].as_str()) && !["~function", "~:"].contains(&w[0].as_str()) && tk.iter().any(|x| x == "instance of")).map(|w| w[1].clone())
       };
-      let key = if why.contains("minimally") { "min" } else if why.contains("removing") { "nopar" } else { "full" };
+      let key = if why.contains("redundant") { "wrapmin" } else if why.contains("minimally") { "min" } else if why.contains("removing") { "nopar" } else { "full" };
+      let three_segment_path_after_bracket = {
+        let tk = toks(&cases[*i][key]);
+        tk.windows(6).any(|w| (w[0] == "(" || w[0] == "[") && w[2] == "." && w[4] == "." && ![")", "(", "["].contains(&w[1].as_str()))
+      };
       let sig = if why.starts_with("a comment directly after") {
         "comment-directly-after-declared-name-type-token-or-function-keyword".to_string()
+      } else if three_segment_path_after_bracket {
+        "path-of-three-or-more-segments-directly-after-an-opening-bracket".to_string()
       } else if let Some(op) = type_then_op(key) {
         format!("instance-of-type-name-swallows-following-operator:{}", op)
       } else if t["n"] == "between" && (t["lo"]["n"] == "and" || t["lo"]["n"] == "between") {
